@@ -1334,10 +1334,15 @@ class PrecisionManager:
         return g
     def __enter__(self):
         self.origp.append(self.ctx.prec)
-        if self.precfun:
-            self.ctx.prec = self.precfun(self.ctx.prec)
-        else:
-            self.ctx.dps = self.dpsfun(self.ctx.dps)
+        try:
+            if self.precfun:
+                self.ctx.prec = self.precfun(self.ctx.prec)
+            else:
+                self.ctx.dps = self.dpsfun(self.ctx.dps)
+        except:
+            # __exit__ is not called when __enter__ fails
+            self.ctx.prec = self.origp.pop()
+            raise
     def __exit__(self, exc_type, exc_val, exc_tb):
         self.ctx.prec = self.origp.pop()
         return False
